@@ -241,7 +241,22 @@ template <class A, class C> void run_set_items(vf::Ctx& c, int archId, const cha
 	for (size_t i = 0; i < n; i++) { const bool offended = want[i].w == -424242 || want[i].d == -0.5;
 		if (got[i].id != want[i].id || got[i].s != want[i].s || got[i].w != want[i].w || got[i].d != want[i].d) c.fail(offended ? "the target of a skipped value was modified" : "a value that was not offended is loaded differently (neighbour disturbed)", vf::cat("element ", i, " | ", d)); }
 }
+// sets of plain integers: a skipped element has no previous value; whatever the loader inserts for it must be a value-initialised
+// element, never an indeterminate one (recorded finding KF-67, repaired)
+template <class A> void run_int_set(vf::Ctx& c, int archId) {
+	const size_t n = 1 + c.src.draw(6); std::set<int64_t> clean; std::vector<Val> doc; bool any = false;
+	for (size_t i = 0; i < n; i++) { if (c.src.chance(1, 3) || (i == 0 && c.src.coin())) { doc.push_back(offending_value(c.src, RT::Int, archId)); any = true; } else { const int64_t v = 1000 + static_cast<int64_t>(c.src.draw(100000)); clean.insert(v); doc.push_back(refmp::mkInt(v)); } }
+	std::string bytes; Cfg mem; Outcome so = dyn::save<A>(refmp::mkArr(doc), bytes, mem); if (!so.ok()) c.fail("saving the document failed", so.str());
+	Cfg cfg; cfg.stream = c.src.coin(); cfg.streamKind = cfg.stream ? gen_stream_kind(c.src, archId == MSGPACK) : 0; cfg.chunk = 1 + c.src.draw(40); cfg.opt.mismatchedTypesPolicy = MismatchedTypesPolicy::Skip; cfg.opt.overflowNumberPolicy = OverflowNumberPolicy::Skip;
+	c.nontrivial = any; c.describe(vf::cat(arch_name(archId), " set<int64> n=", n, " ", refmp::show(refmp::mkArr(doc)).substr(0, 200), " ", cfg.str()));
+	std::set<int64_t> target; Outcome lo = load<A>(target, bytes, cfg); std::string gs; for (auto x : target) gs += vf::cat(x, " ");
+	const std::string d = vf::cat(arch_name(archId), " set<int64> doc=", refmp::show(refmp::mkArr(doc)).substr(0, 400), " [", cfg.str(), "] => ", lo.str(), " loaded={", gs, "}");
+	if (!lo.ok()) c.fail("loading with the Skip policies ended in an exception", d);
+	for (auto v : clean) if (!target.count(v)) c.fail("a value that was not offended is loaded differently (neighbour disturbed)", d);
+	for (auto x : target) if (!clean.count(x) && x != 0) c.fail("the target of a skipped value was modified", vf::cat("the set holds ", x, ", which is neither a value of the document nor a value-initialised element | ", d));
+}
 template <class A> void run_sets(vf::Ctx& c, int archId) {
+	if (c.src.chance(1, 3)) { run_int_set<A>(c, archId); return; }
 	switch (c.src.draw(3)) { case 0: run_set_items<A, std::set<SetItem>>(c, archId, "set"); break; case 1: run_set_items<A, std::multiset<SetItem>>(c, archId, "multiset"); break; default: run_set_items<A, std::unordered_set<SetItem, SetItemHash>>(c, archId, "unordered_set"); }
 }
 // arrays longer than the 4096-element cap of the size estimate: elements behind the cap are appended one by one; a skipped one must still
